@@ -387,7 +387,7 @@ class Gen:
             fs = self.fields(ctx, 0, 4, [])
             ctx["nats"] = [f["n"] for f in fs if f["t"][0] == "#" and not f["m"]]
             res = self.type_expr(ctx, 2)
-            if res[0] and res[0][0].islower() and res[0] not in PRIMS:
+            if res[1] or res[0][0].islower():  # the kernel refuses bare function results
                 res = R("Maybe", res)
             s.append(C("f", "fn%d" % i, self.tag(), "", [], fs, res))
         return s
@@ -935,10 +935,10 @@ SAMPLES = "internal/tlcodegen/test/tls/backward_compatibility_samples"
 PRE = "int#a8509bda ? = Int; long#22076cba ? = Long; string#b5286e24 ? = String;\n"
 WITNESSES = {
     # name: (old, new, which properties' statements fail on it)
-    "L5-second-arg": ("pair#0000000a {X:Type} {Y:Type} a:X b:Y = Pair X Y; foo#00000001 x:int = Foo; bar#00000003 p:(pair int %Foo) = Bar;",
-                      "pair#0000000a {X:Type} {Y:Type} a:X b:Y = Pair X Y; foo#00000001 x:int = Foo; foo2#00000002 = Foo; bar#00000003 p:(pair int %Foo) = Bar;"),
-    "L5-repeat": ("foo#00000001 x:int = Foo; bar#00000003 n:# p:n*[%Foo] = Bar;",
-                  "foo#00000001 x:int = Foo; foo2#00000002 = Foo; bar#00000003 n:# p:n*[%Foo] = Bar;"),
+    "L5-second-arg": ("pair#0000000a {X:Type} {Y:Type} a:X b:Y = Pair X Y; fooA#00000001 x:int = Foo; bar#00000003 p:(pair int %Foo) = Bar;",
+                      "pair#0000000a {X:Type} {Y:Type} a:X b:Y = Pair X Y; fooA#00000001 x:int = Foo; fooB#00000002 = Foo; bar#00000003 p:(pair int Foo) = Bar;"),
+    "L5-repeat": ("fooA#00000001 x:int = Foo; bar#00000003 n:# p:n*[%Foo] = Bar;",
+                  "fooA#00000001 x:int = Foo; fooB#00000002 = Foo; bar#00000003 n:# p:n*[Foo] = Bar;"),
     "L7-bare-to-boxed": ("foo#00000001 x:int = Foo; bar#00000003 p:%Foo = Bar;", "foo#00000001 x:int = Foo; bar#00000003 p:Foo = Bar;"),
     "repeat-element": ("foo#00000001 n:# xs:n*[int] = Foo;", "foo#00000001 n:# xs:n*[long] = Foo;"),
     "repeat-scale": ("foo#00000001 n:# m:# xs:n*[int] = Foo;", "foo#00000001 n:# m:# xs:m*[int] = Foo;"),
@@ -946,8 +946,8 @@ WITNESSES = {
     "size-bit": ("foo#00000001 n:# xs:n*[int] = Foo;", "foo#00000001 n:# xs:n*[int] y:n.0?int = Foo;"),
     "constant-bit": ("t#00000005 {n:#} a:n.1?int = T n; foo#00000001 x:(T 5) = Foo;",
                      "t#00000005 {n:#} a:n.1?int b:n.0?int = T n; foo#00000001 x:(T 5) = Foo;"),
-    "fewer-args-panic": ("pair#0000000a {X:Type} {Y:Type} a:X b:Y = Pair X Y; bar#00000003 p:(pair int int) = Bar;",
-                         "pair#0000000a {X:Type} {Y:Type} a:X b:Y = Pair X Y; bar#00000003 p:(pair int) = Bar;"),
+    "fewer-args-panic": ("bar#00000003 p:(pair int int) = Bar; pair#0000000a {X:Type} {Y:Type} a:X b:Y = Pair X Y;",
+                         "bar#00000003 p:(pair int) = Bar; pair#0000000a {X:Type} a:X = Pair X;"),
 }
 
 
